@@ -236,6 +236,8 @@ static void scen_gcm(const gcmfam_t *f, int route, rng_t *r)
 {
         int ks = (int) rng_below(r, 2), nt = rng_below(r, 4) == 0;
         uint32_t len = gcm_lens[rng_below(r, sizeof gcm_lens / sizeof gcm_lens[0])], aadlen = rng_below(r, 3) ? rng_below(r, 40) : rng_below(r, 300);
+        if (rng_below(r, 6) == 0) aadlen = 0;           /* the empty AAD and the empty message have their own branches: reach them, and both at once, often */
+        if (rng_below(r, 8) == 0) len = 0;
         static const uint32_t tl[3] = { 8, 12, 16 }; uint32_t taglen = tl[rng_below(r, 3)];
         snprintf(scen, sizeof scen, "gcm%d %s %s%s len=%u aad=%u tag=%u", ks_bits2[ks], f->name, route_name[route], nt ? " nt" : "", len, aadlen, taglen);
         uint8_t key[32]; rng_fill(r, key, 32);
